@@ -14,7 +14,7 @@ import (
 
 func main() {
 	t := time.Now()
-	p, err := load.Load("/repo", false, "", "")
+	p, err := load.Load(os.Getenv("DUMP_REPO"), false, "", "")
 	if err != nil {
 		fmt.Println(err)
 		os.Exit(2)
